@@ -6,6 +6,7 @@ import (
 	"fmt"
 	"go/types"
 	"os"
+	"runtime"
 	"sort"
 	"strings"
 
@@ -34,6 +35,9 @@ func (f *FrameSet) union(o *FrameSet) {
 
 // addPointeeWrites: a write through a pointer to a value of type t (field index or -1 for all).
 func (p *Program) addPointeeWrites(f *FrameSet, t types.Type, field int) {
+	if os.Getenv("GOVC_DEBUG_WS") == "2" && field < 0 && strings.Contains(t.String(), "TaskWorkerPool") {
+		fmt.Fprintf(os.Stderr, "whole-struct write of %s\n%s\n", t, debugStack())
+	}
 	if st, ok := t.Underlying().(*types.Struct); ok {
 		ss := p.sortOf(t)
 		if _, isDT := p.U.Datatypes[ss]; isDT {
@@ -135,7 +139,7 @@ func (p *Program) writeSetX(fn *ssa.Function, skipFV bool) *FrameSet {
 	}
 	ws := NewFrameSet()
 	cache[fn] = ws // cut recursion (fixpoint below is approximated by one more pass)
-	if fn.Pkg != nil && p.Spec.PkgFrames[fn.Pkg.Pkg.Path()] {
+	if pk := fnPkgPath(fn); pk != "" && p.Spec.PkgFrames[pk] {
 		return ws
 	}
 	pureDeclared := false
@@ -165,7 +169,7 @@ func (p *Program) writeSetX(fn *ssa.Function, skipFV bool) *FrameSet {
 		}
 	}()
 	if len(fn.Blocks) == 0 {
-		if fn.Pkg != nil && inModule(fn.Pkg.Pkg) {
+		if fnInModule(fn) {
 			ws.All = true // module function without a body here (should not happen)
 		}
 		// external function: see externalFrame at the call site
@@ -214,7 +218,13 @@ func (x *Exec) staticCallFrame(ci ssa.CallInstruction, loop map[*ssa.BasicBlock]
 	c := ci.Common()
 	p := x.prog
 	if _, isGo := ci.(*ssa.Go); isGo {
-		// the spawned routine runs concurrently; its effects are not part of this function's sequential frame
+		// the spawned routine runs concurrently; its effects are not part of this function's sequential frame,
+		// except the ghost assignments recorded when it is issued
+		if f := c.StaticCallee(); f != nil {
+			if fc, ok := p.Contracts[funcKey(f)]; ok {
+				x.ghostSetFrame(f, fc, frame)
+			}
+		}
 		return
 	}
 	if b, ok := c.Value.(*ssa.Builtin); ok && !c.IsInvoke() {
@@ -322,7 +332,7 @@ func (x *Exec) calleeFrame(f *ssa.Function, args []ssa.Value, loop map[*ssa.Basi
 		}
 		return
 	}
-	if f.Pkg != nil && inModule(f.Pkg.Pkg) || f.Parent() != nil {
+	if fnInModule(f) || f.Parent() != nil {
 		frame.union(p.writeSet(f))
 		// stores through pointer arguments that point to caller locals
 		for _, a := range args {
@@ -468,6 +478,13 @@ func (x *Exec) staticExprType(f *ssa.Function, fc *FuncContract, e Expr) types.T
 // externalArgsFrame: an external (non-module) callee may write through pointer and map arguments.
 func (x *Exec) externalArgsFrame(args []ssa.Value, loop map[*ssa.BasicBlock]bool, cells map[*ssa.Alloc]bool, frame *FrameSet) {
 	for _, a := range args {
+		if fns := localClosures(a); len(fns) > 0 {
+			for _, fn := range fns {
+				frame.union(x.prog.writeSetX(fn, true))
+			}
+		} else if fn, ok := a.(*ssa.Function); ok {
+			frame.union(x.prog.writeSet(fn))
+		}
 		switch u := a.Type().Underlying().(type) {
 		case *types.Pointer:
 			if root, ok := rootAlloc(a); ok && !root.Heap {
@@ -578,7 +595,7 @@ func (x *Exec) callStatic(st *State, in ssa.Instruction, c *ssa.CallCommon, fv *
 	// pointer arguments to uncontracted callees: havoc what they point to
 	for i, a := range args {
 		if p, ok := a.(*Ptr); ok && (p.Cell != nil || len(p.Path) > 0) {
-			if f.Pkg != nil && inModule(f.Pkg.Pkg) {
+			if fnInModule(f) {
 				// module callee: its write set tells whether the pointee type is written
 				ws := x.prog.writeSet(f)
 				if !ws.All && !x.writesPointee(ws, p) && p.Cell == nil {
@@ -1511,7 +1528,19 @@ func (x *Exec) ghostSetFrame(f *ssa.Function, fc *FuncContract, frame *FrameSet)
 		case *EField:
 			bt := x.staticExprType(f, fc, e.X)
 			if bt == nil {
-				frame.All = true
+				// unknown base (e.g. a captured variable): every declared ghost field of that name
+				found := false
+				for _, g := range x.prog.Spec.Ghosts {
+					if g.Name == e.Name {
+						if gt, err := x.prog.lookupType(g.TypeText, nil); err == nil {
+							frame.Names[ghostHeapName(gt, e.Name)] = true
+							found = true
+						}
+					}
+				}
+				if !found {
+					frame.All = true
+				}
 				continue
 			}
 			if pt, ok := bt.Underlying().(*types.Pointer); ok {
@@ -1658,4 +1687,42 @@ func (p *Program) declAppend(name string, ss, as Sort) {
 	p.U.Axioms = append(p.U.Axioms, &Axiom{Name: name + "_right", T: Forall([]BVar{{"s", ss}, {"t", ss}, {"i", SInt}},
 		Implies(And(Ge(iv, IntLit(0)), Lt(iv, ln(tv))), Eq(Select(ar(app), Add(ln(sv), iv)), Select(ar(tv), iv))),
 		[]*Term{app, Select(ar(tv), iv)})})
+}
+
+func debugStack() string {
+	buf := make([]byte, 4096)
+	n := runtime.Stack(buf, false)
+	lines := strings.Split(string(buf[:n]), "\n")
+	var out []string
+	for _, l := range lines {
+		if strings.Contains(l, "govc/") || strings.HasPrefix(l, "main.") {
+			out = append(out, strings.TrimSpace(l))
+		}
+	}
+	if len(out) > 14 {
+		out = out[:14]
+	}
+	return strings.Join(out, "\n")
+}
+
+// fnPkgPath: the package path a function belongs to (instantiations of generic functions have no ssa package).
+func fnPkgPath(f *ssa.Function) string {
+	if f.Pkg != nil {
+		return f.Pkg.Pkg.Path()
+	}
+	if o := f.Origin(); o != nil && o.Pkg != nil {
+		return o.Pkg.Pkg.Path()
+	}
+	if obj := f.Object(); obj != nil && obj.Pkg() != nil {
+		return obj.Pkg().Path()
+	}
+	if par := f.Parent(); par != nil {
+		return fnPkgPath(par)
+	}
+	return ""
+}
+
+func fnInModule(f *ssa.Function) bool {
+	p := fnPkgPath(f)
+	return p == modulePath || strings.HasPrefix(p, modulePath+"/")
 }
